@@ -72,8 +72,9 @@
 
    Bounds / assumptions: case folding is modelled for ASCII and Latin-1 letters only (other
    characters used in titles are caseless); titles contain no characters that need a JSON
-   escape; treated-as targets are the ordinary severities Panic..Trace (the statement does not
-   say what being gated "as Off/Always/OK.." means); debug mode is off.                        *)
+   escape; treated-as targets are the built-in levels, the special ones included (a level treated
+   as Always is admitted like Always, one treated as Off like Off, one treated as OK like OK, i.e.
+   like Info - Levels!Admit); debug mode is off.                        *)
 EXTENDS Levels
 
 CONSTANTS
@@ -92,7 +93,7 @@ Contexts  == {"outside", "warn", "warn-go", "rec", "val"}   \* where a question 
 Reporting == {"warn", "warn-go"}                           \* ... while ParseLevel reports an unknown name
 
 ERR == -9999                       \* "the call returned an error"
-Gateable == Panic..Trace           \* treated-as targets whose meaning the statement fixes
+Gateable == Builtin                \* treated-as targets whose meaning the statement fixes
 GateLevels == (Panic..Trace) \cup {Off, Always}   \* logger levels used to observe gating
 
 -----------------------------------------------------------------------------
